@@ -95,11 +95,18 @@ func HarnessC20MetricsSubscriber() {
 	ch, err := sub.Subscribe(context.Background(), "t")
 	vrt.Assert(err == nil, "subscribed")
 	m := message.NewMessage("m", nil)
+	// like the messages of a real Pub/Sub, the message carries a context that ends with its subscription
+	mctx, mcancel := context.WithCancel(context.Background())
+	defer mcancel()
+	m.SetContext(mctx)
 	go func() { inner.ch <- m }()
 	got := <-ch
 	vrt.Assert(got == m, "the message passes through unmodified (same object)")
 	nack := vrt.Bool("nack")
 	closeFirst := vrt.Bool("close.before.settle")
+	if vrt.Bool("message.context.cancelled.before.settle") {
+		mcancel()
+	}
 	if closeFirst {
 		vrt.Assert(sub.Close() == nil, "Close passes through")
 	}
